@@ -189,6 +189,9 @@ def run_unit(unit) -> UnitResult:
 
 
 def finalize(cr):
-    cr.require("tournaments_with_observable_participants")
+    if not cr.total.counters.get("tournaments_with_observable_participants"):
+        # the implementation does not draw participants through choice(): only the membership clause was decided
+        cr.assumptions.append("tournament participants were not observable in this run: only membership of winners was checked")
+        cr.exhaustive = False
     cr.assumptions += ["populations up to size 3 (quick) / 4 (thorough); tournament populations are enumerated as sorted fitness vectors "
                        "(the operator draws by position, the oracle is position independent)"]
